@@ -310,6 +310,53 @@ theorem heap_merge_spine_path (o : ListStrategy) (f : Nat) (h h' : Heap) (hc : h
   exact mergeNodeF_spine_path o hc hs ks f h c1 c2 h' r x y (Heap.le_refl _) (Heap.get?_lt h1)
     (Heap.get?_lt h2) hm' hx hy ⟨kx, cx⟩ ⟨ky, cy⟩
 
+/-- Any other combination of kinds (a leaf on either side, container against list): nothing is
+    allocated, the heap is returned as it is, and the result IS one of the two input nodes or the
+    shared nil leaf (`coalesce` returns an existing node). -/
+theorem heap_merge_otherwise (o : ListStrategy) (f : Nat) (h : Heap) (n v : Addr) (cn cv : Cell)
+    (hn : h.get? n = some cn) (hv : h.get? v = some cv)
+    (h1 : ¬ (cn.isCont = true ∧ cv.isCont = true)) (h2 : ¬ (cn.isList = true ∧ cv.isList = true)) :
+    mergeNodeF o (f + 1) h n v = some (h, coalesceH h n v) ∧
+      (coalesceH h n v = v ∨ coalesceH h n v = n ∨ coalesceH h n v = nilAddr) := by
+  refine ⟨mergeNodeF_other hn hv h1 h2, ?_⟩
+  unfold coalesceH
+  split
+  · exact Or.inl rfl
+  · split
+    · exact Or.inr (Or.inl rfl)
+    · exact Or.inr (Or.inr rfl)
+
+/-- List strategies at pointer level. Append: the new list holds the ITEMS of the two input
+    lists themselves (the same addresses), A's then B's — nothing is copied. -/
+theorem heap_append_items (f : Nat) (h h' : Heap) (n v r : Addr) (xs ys : List Addr)
+    (hn : h.get? n = some (.list xs)) (hv : h.get? v = some (.list ys))
+    (hm : mergeNodeF .append (f + 1) h n v = some (h', r)) :
+    r = h.size ∧ h'.get? r = some (.list (xs ++ ys)) := by
+  rw [mergeNodeF_list_append hn hv] at hm
+  simp only [Option.some.injEq] at hm
+  have e1 : h' = (h.alloc (.list (xs ++ ys))).1 := (congrArg Prod.fst hm).symm
+  have e2 : r = h.size := (congrArg Prod.snd hm).symm
+  subst e1; subst e2
+  exact ⟨rfl, Heap.get?_alloc_new _ _⟩
+
+/-- Meld: beyond the common prefix the new list holds exactly what
+    `firstValidListItem(i, l1, l2)` returns — the existing item of the longer list. -/
+theorem heap_meld_tail (f : Nat) (h h' : Heap) (n v r : Addr) (xs ys : List Addr)
+    (hn : h.get? n = some (.list xs)) (hv : h.get? v = some (.list ys))
+    (hm : mergeNodeF .meld (f + 1) h n v = some (h', r)) :
+    ∃ zs, h'.get? r = some (.list zs) ∧
+      ∀ i, min xs.length ys.length ≤ i → zs.getD i nilAddr = firstValidListItemH i [xs, ys] := by
+  rw [mergeNodeF_list_meld hn hv] at hm
+  cases hf : meldItems (mergeNodeF .meld f) h xs ys with
+  | none => simp [hf] at hm
+  | some q =>
+    obtain ⟨h1, zs⟩ := q
+    simp only [hf, Option.bind_some, Option.some.injEq] at hm
+    have e1 : h' = (h1.alloc (.list zs)).1 := (congrArg Prod.fst hm).symm
+    have e2 : r = h1.size := (congrArg Prod.snd hm).symm
+    subst e1; subst e2
+    exact ⟨zs, Heap.get?_alloc_new _ _, meldItems_tail xs ys h h1 zs hf⟩
+
 /-- … and writes to those new cells (and allocations) afterwards leave every root of the old
     heap — A and B — unchanged. -/
 theorem heap_merge_result_writes (o : ListStrategy) (f : Nat) (h h1 h2 : Heap) (c1 c2 r : Addr)
